@@ -71,6 +71,7 @@ type Contract struct {
 	Resets   []ResetSpec
 	Retains  []string
 	Preserves []*Clause
+	NoAlloc  []*Clause
 	Mods     []Modifies
 	Lets     []LetDef
 	Trusted  bool
@@ -83,7 +84,7 @@ type Contract struct {
 }
 
 var reHead = regexp.MustCompile(`^(func|iface)\s+(.*)$`)
-var reTagged = regexp.MustCompile(`^(safety|requires|ensures|canary)(\[[A-Za-z0-9!, ]*\])?\s*(.*)$`)
+var reTagged = regexp.MustCompile(`^(safety|requires|ensures|canary|noalloc)(\[[A-Za-z0-9!, ]*\])?\s*(.*)$`)
 var reAssert = regexp.MustCompile(`^assert(\[[A-Za-z0-9!, ]*\])?\s+after\s+([A-Za-z_][A-Za-z0-9_]*)\s*:\s*(.*)$`)
 type ResetSpec struct {
 	Param string
@@ -199,6 +200,13 @@ func (cs *ContractSet) loadFile(path string, ext bool) error {
 		case "canary":
 			cl.Ord = len(c.Canaries) + 1
 			c.Canaries = append(c.Canaries, cl)
+		case "noalloc":
+			// noalloc[tags] cond: when cond holds on return the call performed no heap allocation
+			if strings.TrimSpace(cl.Text) == "" {
+				cl.Text = "noerr"
+			}
+			cl.Ord = len(c.NoAlloc) + 1
+			c.NoAlloc = append(c.NoAlloc, cl)
 		case "invariant":
 			n := 0
 			for _, x := range c.Invs {
@@ -479,7 +487,7 @@ func (cs *ContractSet) finish() error {
 		m.E = e
 	}
 	for _, c := range cs.M {
-		all := [][]*Clause{c.Requires, c.Ensures, c.Canaries, c.Invs, c.Asserts, c.Preserves}
+		all := [][]*Clause{c.Requires, c.Ensures, c.Canaries, c.Invs, c.Asserts, c.Preserves, c.NoAlloc}
 		for _, l := range all {
 			for _, cl := range l {
 				e, err := parseExpr(cl.Text)
